@@ -27,17 +27,21 @@ d,k=sys.argv[1],int(sys.argv[2])
 def load(p):
     m={}
     for l in open(p):
-        o=json.loads(l); m[(o['case']['seed'],json.dumps(o['case'].get('params'),sort_keys=True))]=(o['fp'],o.get('class'),o['steps'])
+        o=json.loads(l)
+        # C14 allows a run to be cut short by its real-time budget (heavy generated configurations): how far such a run got
+        # depends on the machine, by design; the comparison is about complete runs
+        cut = o.get('reason')=='real-time budget'
+        m[(o['case']['seed'],json.dumps(o['case'].get('params'),sort_keys=True))]=('CUT' if cut else o['fp'],o.get('class'),0 if cut else o['steps'])
     return m
 base=load(d+'/o1.jsonl'); bad=0
 for i in range(2,k+1):
     m=load(d+'/o%d.jsonl'%i)
     if set(m)!=set(base): print('process',i,'different case set',len(m),len(base)); bad+=1; continue
     for key in base:
-        if m[key]!=base[key]: bad+=1; print('DIVERGENCE process',i,key,base[key],m[key])
+        if m[key]!=base[key] and 'CUT' not in (m[key][0],base[key][0]): bad+=1; print('DIVERGENCE process',i,key,base[key],m[key])
 h=load(d+'/half.jsonl')
 for key in h:
-    if key in base and h[key]!=base[key]: bad+=1; print('DIVERGENCE alone-vs-batch',key,base[key],h[key])
+    if key in base and h[key]!=base[key] and 'CUT' not in (h[key][0],base[key][0]): bad+=1; print('DIVERGENCE alone-vs-batch',key,base[key],h[key])
 print('determinism: %d cases x %d processes (GOMAXPROCS 1/4/16) + alone-vs-batch: %d divergences'%(len(base),k,bad))
 sys.exit(1 if bad else 0)
 PY
